@@ -894,6 +894,68 @@ func (b *boundsAn) validatedBeforeSuccess(st *ssa.Store, kind guardKind) bool {
 			}
 		})
 	}
+	// a validator method called on the object after it was filled in: `if err := obj.validate(); err != nil { return err }`
+	// where validate rejects unbounded values of this field (every success return of validate lies behind the bounding
+	// edge of a comparison on its own load of the field)
+	validatorEdges := map[*ssa.BasicBlock]int{} // If block -> successor index taken when the validator accepted
+	if fa, ok := st.Addr.(*ssa.FieldAddr); ok {
+		for _, cc := range calls(fn, false, func(c ssa.CallInstruction) bool {
+			g := c.Common().StaticCallee()
+			return g != nil && b.w.inModule(g) && g.Blocks != nil && errResultIndex(g.Signature) >= 0
+		}) {
+			c, isCall := cc.(*ssa.Call)
+			if !isCall {
+				continue
+			}
+			g := c.Call.StaticCallee()
+			argIdx := -1
+			for i, a := range c.Call.Args {
+				if a == fa.X || sameBase(a, fa.X) {
+					argIdx = i
+				}
+			}
+			if argIdx < 0 || argIdx >= len(g.Params) {
+				continue
+			}
+			p := g.Params[argIdx]
+			// loads of the field through the parameter inside g
+			var loads []ssa.Value
+			allInstrs(g, func(ins ssa.Instruction) {
+				if ld, ok := ins.(*ssa.UnOp); ok && ld.Op == token.MUL {
+					if fa2, ok := ld.X.(*ssa.FieldAddr); ok && fa2.Field == fa.Field && fa2.X == ssa.Value(p) {
+						loads = append(loads, ld)
+					}
+				}
+			})
+			if len(loads) == 0 {
+				continue
+			}
+			okAll, anyRet := true, false
+			for _, ret := range returnsOf(g) {
+				if classifyReturn(ret) == RetError {
+					continue
+				}
+				anyRet = true
+				guarded := false
+				for _, ld := range loads {
+					sub := &boundsAn{w: b.w, scope: b.scope, tv: map[ssa.Value]bool{ld: true}, tlen: b.tlen, tf: b.tf, retT: b.retT, origin: b.origin,
+						loopBound: b.loopBound, fieldOK: b.fieldOK, fieldOKIdx: b.fieldOKIdx, fieldNZ: b.fieldNZ}
+					if sub.directGuard(ld, ret.Block(), kind, 3) {
+						guarded = true
+					}
+				}
+				if !guarded {
+					okAll = false
+				}
+			}
+			if !okAll || !anyRet {
+				continue
+			}
+			if iff, nilIdx := errNilEdge(fn, c); iff != nil {
+				validatorEdges[iff.Block()] = nilIdx
+			}
+		}
+	}
 	any := false
 	for _, ret := range returnsOf(fn) {
 		if classifyReturn(ret) == RetError {
@@ -905,6 +967,11 @@ func (b *boundsAn) validatedBeforeSuccess(st *ssa.Store, kind guardKind) bool {
 			if b.directGuard(c, ret.Block(), kind, 0) {
 				ok = true
 				break
+			}
+		}
+		for blk, idx := range validatorEdges {
+			if edgeDominates(blk, idx, ret.Block()) {
+				ok = true
 			}
 		}
 		if !ok {
